@@ -29,6 +29,7 @@ func (g *Graph) TopoShortestPath(L TopoOrder) (distTo map[interface{}]int, edgeT
 
 	// For each vertex u in L
 	for _, u := range L {
+		verifStep()
 		uh := hashcode(u)
 
 		// Walk through all neighbors v of u;
@@ -54,6 +55,7 @@ func (g *Graph) EdgeToPath(target Vertex, edgeTo map[interface{}]Vertex) []Verte
 
 	current := target
 	for current != nil {
+		verifStep()
 		result = append(result, current)
 		current = edgeTo[hashcode(current)]
 	}
